@@ -55,7 +55,7 @@ def gen_cases(tier, seed):
                     "path": r.choice(["str", "pathlib"]), "present": r.random() < 0.7,
                     # the existing target may be reached through a symbolic link or have a second hard link (a data file shared by name)
                     "link": r.choice([None, None, None, "symlink", "hardlink"]),
-                    "value": r.choice(["small", "small", "chunks", "empty", "bad", "mixedkeys"]),
+                    "value": r.choice(["small", "small", "chunks", "empty", "bad", "mixedkeys", "badopen"]),
                     "leftover": r.random() < 0.3})
     for i in range(max(8, n // 14)):
         # two or three stores whose files are siblings (same stem) written at the same time with their file operations interleaved one at a
@@ -65,8 +65,15 @@ def gen_cases(tier, seed):
     return out
 
 
+BADOPEN = [False]  # the store is constructed with options that make open() fail AFTER it has created the file (unknown encoding, unbuffered text)
+
+
 def make_value(store, vclass, r):
     """returns (value, serialisation_fails)"""
+    if vclass == "badopen":
+        if store in ("json", "text", "staged_write"):
+            return ({"a": 1} if store == "json" else "text that is never written"), True
+        vclass = "bad"
     if vclass == "mixedkeys":
         if store == "json":
             # legal for json.dump (keys are coerced to strings) but the keys cannot be ordered among themselves
@@ -126,6 +133,15 @@ def writer(store, path):
     """returns f(value) performing one write through the real uberjob code."""
     import uberjob.stores as st
 
+    if BADOPEN[0] and store == "json":
+        return st.JsonFileStore(path, encoding="vmon-no-such-codec").write
+    if BADOPEN[0] and store == "text":
+        return st.TextFileStore(path, encoding="vmon-no-such-codec").write
+    if BADOPEN[0] and store == "staged_write":
+        def w_bad(v):
+            with st.staged_write(path, "w", buffering=0) as f:  # "can't have unbuffered text I/O": raised after the raw file exists
+                f.write(v)
+        return w_bad
     if store == "json":
         return st.JsonFileStore(path).write
     if store == "pickle":
@@ -264,6 +280,7 @@ def run_case(desc):
         res.setdefault("sets", {})["stores"] = []
         return res
     r = random.Random(desc["seed"])
+    BADOPEN[0] = desc["value"] == "badopen" and desc["store"] in ("json", "text", "staged_write")
     value, ser_fails = make_value(desc["store"], desc["value"], r)
     old_bytes = b"OLD-VALUE-" + bytes(r.getrandbits(8) for _ in range(r.randint(0, 40)))
     counters = {"writes_generated": 1, "fault_points": 0, "exception_faults": 0, "exit_faults": 0, "clean_writes_checked": 0,
@@ -330,6 +347,11 @@ def run_case(desc):
             faults = [("raise", e) for e in ERRS] + [("raise", SUBCLASS_ERRS[(k + desc["seed"]) % len(SUBCLASS_ERRS)]), ("raise", errno.ENOENT)] + [("exit", 0), ("raise_base", r.choice([0, 1]))]
             if opname == "replace":
                 faults.append(("raise", errno.EXDEV))
+            if opname == "replace":
+                # two faults: the rename cannot be done (and never will), and the process dies at one of the next few file operations -
+                # whatever a fallback does in between, the previous value survives
+                faults.extend(("sticky_then_exit", j) for j in range(1, 7))
+                faults.extend(("sticky_then_exit_after", j) for j in range(1, 5))  # ... or dies right AFTER that operation took effect
             if opname in ("replace", "open", "write"):
                 # the same kind of operation keeps failing afterwards (renames are not possible on this file system, the device stays full):
                 # whatever the code tries next, the previous value must survive
@@ -342,12 +364,21 @@ def run_case(desc):
                     path = base if desc["path"] == "str" else pathlib.Path(base)
                     before = snapshot(d)
                     sticky = action == "raise_sticky"
-                    if sticky:
+                    die_after = None
+                    after_effect = action == "sticky_then_exit_after"
+                    if action in ("sticky_then_exit", "sticky_then_exit_after"):
+                        die_after, err, action, sticky = err, errno.EXDEV, "exit2", True
+                        counters["rename_fails_then_death_faults"] = counters.get("rename_fails_then_death_faults", 0) + 1
+                    if sticky and action != "exit2":
                         action = "raise"
                         counters["sticky_faults"] = counters.get("sticky_faults", 0) + 1
-                    plan = fsfault.Plan(k=k, action=action, err=err, sticky=sticky)
+                    plan = fsfault.Plan(k=k, action="raise" if action == "exit2" else action, err=err, sticky=sticky)
+                    if die_after is not None and after_effect:
+                        plan.die_after = k + die_after
+                    elif die_after is not None:
+                        plan.die_at = k + die_after
                     raised = returned = False
-                    fname = (errno.errorcode.get(err, "exit") + (" (and at every later operation of that kind)" if sticky else "")) if action == "raise" else ("os._exit" if action == "exit" else ("KeyboardInterrupt" if err == 1 else "BaseException"))
+                    fname = (errno.errorcode.get(err, "exit") + (" (and at every later operation of that kind)" if sticky else "")) if action == "raise" else ("os._exit" if action == "exit" else (f"EXDEV at every rename, then os._exit {'right after' if after_effect else 'at'} the file operation {die_after} step(s) later" if action == "exit2" else ("KeyboardInterrupt" if err == 1 else "BaseException")))
                     if action in ("raise", "raise_base"):
                         with fsfault.Shim(plan, d):
                             try:
@@ -370,6 +401,11 @@ def run_case(desc):
                                 os._exit(0)
                         _, status = os.waitpid(pid, 0)
                         fired = os.WIFEXITED(status) and os.WEXITSTATUS(status) == 137
+                        if action == "exit2":
+                            # (the rename fault fired in the child; whether the process then lived long enough to reach the fatal operation
+                            # depends on what the code does after a failed rename - both outcomes are judged the same way)
+                            counters["rename_fails_then_death_reached"] = counters.get("rename_fails_then_death_reached", 0) + int(fired)
+                            fired = True
                         counters["exit_faults"] += 1
                     counters["fault_points"] += 1
                     if fired:
